@@ -32,7 +32,7 @@ WHAT = {
 }
 
 CFG = """CONSTANTS MaxRank = %(maxrank)d
-  BoundSets = %(bsets)s
+  BoundSets = %(bsets)s BOff = %(boff)d
   Tables = %(tables)s
   MMChoices = %(mm)s
   Mode = "%(mode)s" NSlots = %(nslots)d NKeys = %(nkeys)d ReaderCfgs = %(rcfgs)s
@@ -50,8 +50,31 @@ INV_FULL = "TypeOK BucketsPartition BucketRule EveryValueInOneBucket SumExact Mi
 INV_DIRECT = INV_FULL + " MergeIsHomomorphism DiffIsInverse DiffAltOnlyAfterDiff"
 B13 = "{{}, {1}, {3}, {1,3}}"
 B135 = "{{}, {1}, {3}, {5}, {1,3}, {1,5}, {3,5}, {1,3,5}}"
-# generation: boundary lists over ranks 0..6 (never rank 4: in I_huge its double equals rank 3's)
-BGEN = "{{}, {1}, {3}, {5}, {1,3}, {1,5}, {3,5}, {1,3,5}, {0}, {0,1}, {0,1,3,5}, {2,3}, {3,6}, {0,1,2,3,5,6}}"
+# generation: boundary lists over ranks 0..6 never contain rank 4 (in I_huge its double equals rank 3's): see SHORT / LONG
+
+
+# ---- long boundary lists: fillers below every value (negative "ranks") and above every value ----
+BOFF = 64            # cfg files cannot hold negative numbers: boundary codes are rank + BOFF
+
+
+def R(a, b):
+    return list(range(a, b + 1))
+
+
+def enc(*lists):
+    """cfg text of a set of boundary lists (each a list of possibly negative ranks), offset BOFF."""
+    return "{" + ", ".join("{" + ", ".join(str(r + BOFF) for r in sorted(set(l))) + "}" for l in lists) + "}"
+
+
+SHORT = [[], [1], [3], [5], [1, 3], [1, 5], [3, 5], [1, 3, 5], [0], [0, 1], [0, 1, 3, 5], [2, 3], [3, 6], [0, 1, 2, 3, 5, 6]]
+L16 = R(-6, -1) + [1, 3, 5] + R(7, 13)                  # 16: just below the length where a search may switch
+L17_FIRST = [1] + R(7, 22)                              # 17, the value-equal boundary first
+L17_LAST = R(-16, -1) + [5]                             # 17, the value-equal boundary last (top)
+L18_MID = R(-8, -1) + [1, 3] + R(7, 14)                 # 18, value-equal boundaries in the middle
+L32 = R(-14, -1) + [0, 1, 3, 5] + R(7, 20)              # 32
+L101 = R(-50, -1) + [3] + R(7, 56)                      # 101
+L120 = R(-58, -1) + [0, 1, 2, 3, 5, 6] + R(7, 62)       # 120
+LONG = [L16, L17_FIRST, L17_LAST, L18_MID, L32, L101, L120]
 SMALL_TABLES = '{"D_small", "D_tiny", "D_huge", "D_frac", "I_small", "I_frac", "I_huge"}'
 
 
@@ -60,7 +83,7 @@ def sset(xs):
 
 
 def cfg_text(**kw):
-    d = dict(maxrank=4, bsets=B13, tables='{"D_small"}', mm="{TRUE}", mode="direct", nslots=2, nkeys=1,
+    d = dict(maxrank=4, bsets=B13, boff=0, tables='{"D_small"}', mm="{TRUE}", mode="direct", nslots=2, nkeys=1,
              rcfgs="{1}", maxagg=3, maxops=3, balanced="FALSE", hist="FALSE", dev="{}", view="View",
              constraint="CONSTRAINT Bound", invs=INV_POINT)
     d.update(kw)
@@ -81,15 +104,27 @@ def mc_configs(tier):
          dict(mode="pipe", maxrank=6, bsets=B135, rcfgs="{1, 2}", maxagg=3, maxops=3, invs=INV_FULL)),
         ("pipe 2 readers (dd|dc|cc), ranks 0..4, every boundary list within {1,3}, <=3 values, <=3 collections",
          dict(mode="pipe", rcfgs="{11, 12, 22}", maxagg=3, maxops=3, invs=INV_FULL)),
-        ("direct 2 objects, ranks 0..4, every boundary list within {1,3}, <=2 Aggregate, <=4 New/Merge/Diff",
-         dict(mode="direct", nslots=2, maxagg=2, maxops=4, invs=INV_DIRECT)),
-        ("deviation alternatives are narrow (all tables)",
+        ("direct 2 objects, ranks 0..4, boundary lists {} and {1,3}, <=2 Aggregate, <=4 New/Merge/Diff",
+         dict(mode="direct", bsets="{{}, {1,3}}", nslots=2, maxagg=2, maxops=4, invs=INV_DIRECT)),
+        ("direct 2 objects, ranks 0..4, LONG boundary lists (17-18 entries, value-equal boundary first / last / middle), <=2 Aggregate, <=2 other",
+         dict(mode="direct", bsets=enc([1] + R(5, 20), R(-16, -1) + [3], R(-8, -1) + [1, 3] + R(5, 12)), boff=BOFF,
+              nslots=2, maxagg=2, maxops=2, invs=INV_DIRECT)),
+        ("deviation alternatives are narrow (tables D_small, D_tiny, I_huge)",
          dict(mode="direct", maxrank=6, bsets="{{3}, {1,3,5}}", nslots=2, maxagg=2, maxops=2,
-              tables='{"D_small", "D_tiny", "I_small", "I_huge", "I_frac"}', mm="{TRUE, FALSE}",
+              tables='{"D_small", "D_tiny", "I_huge"}', mm="{TRUE, FALSE}",
               invs="TypeOK PointIsSummary DevsAreNarrow DiffAltOnlyAfterDiff")),
     ]
     if tier == "thorough":
         q += [
+            ("direct 2 objects, ranks 0..4, every boundary list within {1,3}, <=2 Aggregate, <=4 New/Merge/Diff",
+             dict(mode="direct", nslots=2, maxagg=2, maxops=4, invs=INV_DIRECT)),
+            ("direct 2 objects, LONG boundary lists (17-18 entries), <=2 Aggregate, <=3 other",
+             dict(mode="direct", bsets=enc([1] + R(5, 20), R(-16, -1) + [3], R(-8, -1) + [1, 3] + R(5, 12)), boff=BOFF,
+                  nslots=2, maxagg=2, maxops=3, invs=INV_DIRECT)),
+            ("deviation alternatives are narrow (5 tables)",
+             dict(mode="direct", maxrank=6, bsets="{{3}, {1,3,5}}", nslots=2, maxagg=2, maxops=2,
+                  tables='{"D_small", "D_tiny", "I_small", "I_huge", "I_frac"}', mm="{TRUE, FALSE}",
+                  invs="TypeOK PointIsSummary DevsAreNarrow DiffAltOnlyAfterDiff")),
             ("pipe 1 reader, ranks 0..6, boundary lists within {1,3,5}, min/max on+off, <=4 values, <=3 collections",
              dict(mode="pipe", maxrank=6, bsets=B135, rcfgs="{1, 2}", mm="{TRUE, FALSE}", maxagg=4, maxops=3, invs=INV_FULL)),
             ("pipe 2 readers (dd|dc|cd|cc), ranks 0..4, <=4 values, <=3 collections",
@@ -170,29 +205,39 @@ def generate(ctx, ndef):
         ("WitRounded", dict(wd, mode="pipe", tables='{"I_huge"}', rcfgs="{2}", nkeys=1)),
         ("WitCumSecondInterval", dict(wd, mode="pipe", tables='{"D_huge"}', rcfgs="{12}", nkeys=1, maxagg=4, maxops=3)),
         ("WitEmptyDelta", dict(wd, mode="pipe", tables='{"D_small"}', rcfgs="{11}", nkeys=2)),
+        # long lists: a value equal to a boundary at the first / last / a middle position
+        ("WitLongEqualAgg", dict(wd, mode="direct", tables='{"D_tiny"}', mm="{TRUE}", bsets=enc(L17_FIRST), boff=BOFF, x="first")),
+        ("WitLongEqualAgg", dict(wd, mode="direct", tables='{"I_small"}', bsets=enc(L17_LAST), boff=BOFF, x="last")),
+        ("WitLongEqualAgg", dict(wd, mode="direct", tables='{"D_frac"}', mm="{TRUE}", bsets=enc(L101), boff=BOFF, x="mid101")),
+        ("WitLongEqualCollect", dict(wd, mode="pipe", tables='{"D_small"}', rcfgs="{2}", nkeys=1, bsets=enc(L32), boff=BOFF, x="d")),
+        ("WitLongEqualCollect", dict(wd, mode="pipe", tables='{"I_huge"}', rcfgs="{2}", nkeys=1, bsets=enc(L18_MID), boff=BOFF, x="l")),
     ]:
-        tag = "%s-%s" % (w, kw["mode"])
+        kw = dict(kw)
+        tag = "%s-%s%s" % (w, kw["mode"], kw.pop("x", ""))
         jobs.append(("wit", tag, write_cfg(ctx, tag, **dict(kw, invs=w)), None))
     # -- all behaviours of a small depth (3 Record + 2 Collect in every order; 2 Aggregate + 3 other) --
     jobs.append(("all", "all-pipe", write_cfg(ctx, "all-pipe", **dict(
-        GEN, balanced="FALSE", mode="pipe", maxrank=2, bsets="{{1}, {0,1}}", tables='{"D_small", "I_small"}',
+        GEN, balanced="FALSE", mode="pipe", maxrank=2, bsets=enc([1], [0, 1], R(-8, -1) + [0, 1] + R(3, 9)), boff=BOFF,
+        tables='{"D_small", "I_small"}',
         mm="{TRUE}", rcfgs="{12}", nkeys=1, maxagg=3, maxops=2, view="FullView", constraint="CONSTRAINT Bound",
         invs="EmitAtDepth")), None))
     jobs.append(("all", "all-direct", write_cfg(ctx, "all-direct", **dict(
-        GEN, balanced="FALSE", mode="direct", maxrank=2, bsets="{{1}}", tables='{"D_tiny"}',
+        GEN, balanced="FALSE", mode="direct", maxrank=2, bsets=enc([1], [1] + R(3, 18)), boff=BOFF, tables='{"D_tiny"}',
         mm="{TRUE}", nslots=2, maxagg=2, maxops=2 if not thorough else 3, view="FullView", constraint="CONSTRAINT Bound",
         invs="EmitAtDepth")), None))
     # -- random walks over the bigger domains ----------------------------------------------------
     num = 220 if thorough else 60
-    dflt = "{{" + ", ".join(str(2 * i) for i in range(ndef)) + "}}"
+    dr = [2 * i for i in range(ndef)]                  # the default list, also embedded in longer view-configured ones
+    dflt = enc(dr, dr + R(2 * ndef + 1, 2 * ndef + max(2, 17 - ndef)), R(-3, -1) + dr + R(2 * ndef + 1, 2 * ndef + 15),
+               R(-40, -1) + dr + R(2 * ndef + 1, 2 * ndef + 50))
     walks = [("direct", (12, 10)), ("pipe", (20, 10))] + ([("direct", (7, 7)), ("pipe", (8, 6))] if thorough else [])
     for k, (mode, steps) in enumerate(walks):
         jobs.append(("sim", "sim-small-%s-%d" % (mode, k), write_cfg(ctx, "sim-small-%s-%d" % (mode, k), **dict(
-            GEN, mode=mode, maxrank=6, bsets=BGEN, tables=SMALL_TABLES, nslots=3, nkeys=2,
+            GEN, mode=mode, maxrank=6, bsets=enc(*(SHORT + LONG)), boff=BOFF, tables=SMALL_TABLES, nslots=3, nkeys=2,
             rcfgs="{1, 2, 11, 12, 21, 22}", maxagg=steps[0], maxops=steps[1], invs="EmitAll")),
             {"num": num, "depth": 2 * (steps[0] + steps[1]) + 4, "seed": ctx.seed * 7 + k}))
         jobs.append(("sim", "sim-default-%s-%d" % (mode, k), write_cfg(ctx, "sim-default-%s-%d" % (mode, k), **dict(
-            GEN, mode=mode, maxrank=2 * ndef, bsets=dflt, tables='{"D_default", "I_default"}', mm="{TRUE}",
+            GEN, mode=mode, maxrank=2 * ndef, bsets=dflt, boff=BOFF, tables='{"D_default", "I_default"}', mm="{TRUE}",
             nslots=3, nkeys=2, rcfgs="{1, 2, 11, 12, 21, 22}", maxagg=steps[0], maxops=steps[1], invs="EmitAll")),
             {"num": num // 2, "depth": 2 * (steps[0] + steps[1]) + 4, "seed": ctx.seed * 11 + k}))
 
@@ -374,6 +419,26 @@ def run(ctx):
         for mode in ("direct", "pipe"):
             if tabs.get(need + "/" + mode, 0) == 0:
                 raise Broken("vacuity: no behaviour for table %s in mode %s" % (need, mode))
+    # long boundary lists must really be exercised with boundary-equal values
+    longs = {}
+    sizes = set()
+    for b in behs:
+        c0 = b["steps"][0]
+        nb = len(c0["bounds"])
+        if nb < 17:
+            continue
+        sizes.add(nb)
+        bset = set(c0["bounds"])
+        if any(st.get("op") in ("agg", "rec") and st["v"] in bset for st in b["steps"][1:]):
+            k = "%s/%s" % (c0["mode"], c0["kind"])
+            longs[k] = longs.get(k, 0) + 1
+    ctx.extra["long_list_behaviours_with_boundary_equal_value"] = longs
+    ctx.extra["long_list_sizes"] = sorted(sizes)
+    for k in ("direct/double", "direct/long", "pipe/double", "pipe/long"):
+        if longs.get(k, 0) == 0:
+            raise Broken("vacuity: no behaviour records a boundary-equal value on a list of >= 17 boundaries for %s" % k)
+    if not any(17 <= x < 32 for x in sizes) or not any(32 <= x < 100 for x in sizes) or not any(x >= 100 for x in sizes):
+        raise Broken("vacuity: long boundary lists of 17.., 32.., 100+ entries not all exercised: %s" % sorted(sizes))
     if not ctx.violations:
         binding_selftest(ctx, exe, behs, verdicts)
     for b in behs[:2] + [x for x in behs if x["src"].startswith("sim-default-pipe")][:1]:
